@@ -60,6 +60,21 @@ def c07_runs(tier):
 
 
 PROPS = {
+    "C04": {
+        "engine": "rapidcheck + enumeration",
+        "technique": "grammar-based generation of 488.2 numeric literals with a structural oracle (expected value computed from the generator's own structure: correctly rounded strtod/strtof of the canonical text, exact integers, golden unit table)",
+        "level": "random decimal literals (1..25 digits, every sign/point/exponent/white-space placement, exponents up to +-400), in-range "
+                 "integer literals for the four integer widths, #H/#Q/#B literals up to the type width, literals with every suffix of the "
+                 "golden unit table in random case with 0..2 blanks, all special mnemonics and near misses, delivered as 'CMD <literal>' to "
+                 "Int32/UInt32/Int64/UInt64/Float/Double/Number readers; values compared as bit patterns; plus the full unit table x case patterns",
+        "level_note": "trusts glibc strtod/strtof for correct rounding of the canonical (white-space free) text; integer readers are only given "
+                      "in-range integer literals; non-decimal literals wider than the target type are not generated",
+        "design_ref": "DESIGN.md section 4, C04",
+        "runs": simple("c04"),
+        "rule": "case = (reader, literal text); random cases distinct by hash, table cases by construction; non-trivial = the literal has an "
+                "exponent, a fraction, an explicit sign, inner white space, a suffix, a non-decimal radix, more than 15 digits, or is a special mnemonic",
+        "assumptions": COMMON_ASSUME + ["golden unit table = the table at the pinned commit (harness/units_golden.hpp)"],
+    },
     "C03": {
         "engine": "exhaustive enumeration + rapidcheck",
         "technique": "reference-model comparison: independent backtracking matcher for the pattern language against matchCommand/SCPI_Match and SCPI_IsCmd/SCPI_CommandNumbers on a live context",
